@@ -27,6 +27,8 @@ ASSUMPTIONS = [
     "route and numpy.digitize sorts last (infinite points are refused by scikit-learn)",
 ]
 
+CASE_TIMEOUT = 600      # the 40 000-row tree takes half a minute on an idle machine
+
 
 def cases(tier, seed):
     out = []
@@ -42,6 +44,7 @@ def cases(tier, seed):
     for k in range(32 if tier == "quick" else 300):
         out.append({"gen": "tree", "id": "tree-nan-%d" % k, "sub": seed * 100003 + 9000 + k, "force": "nan-trained"})
     out.append({"gen": "tree", "id": "tree-deep-chain", "sub": seed * 100003 + 9900, "force": "deep-chain"})
+    out.append({"gen": "tree", "id": "tree-many-leaves", "sub": seed * 100003 + 9901, "force": "many-leaves"})
     for k in range(4):
         out.append({"gen": "tree", "id": "tree-asan-%d" % k, "sub": seed * 100003 + 7000 + k, "flavour": "asan"})
     for k in range(6 if tier == "quick" else 40):
@@ -260,6 +263,15 @@ def make_tree(rng, force=None):
     kind = ["reg", "clf", "extra", "constant", "bestfirst-reg", "bestfirst-clf", "nan-trained"][rng.randint(7)]
     kind = force or kind
     depth = int(rng.randint(1, 9))
+    if kind == "many-leaves":
+        # a fully grown tree on 40 000 distinct rows: 79 999 nodes, leaf ids beyond 65 535
+        from sklearn.tree import DecisionTreeRegressor as _DTR3
+        n = 40000
+        X = f32(rng.rand(n, 2) * 1000)
+        y = rng.rand(n)
+        m = _DTR3(random_state=0).fit(X, y)
+        m._verif_y = y
+        return m, X, kind, int(m.get_depth())
     if kind == "deep-chain":
         # a valid fitted tree deeper than the interpreter's recursion limit: every split peels off one row
         from sklearn.tree import DecisionTreeRegressor as _DTR
